@@ -260,7 +260,7 @@ func (s *scripted) Announce(ctx context.Context, req tracker.AnnounceRequest) (*
 func retryScenario(k int) {
 	id := fmt.Sprintf("retry-%d", k)
 	run.CaseStart(id)
-	defer run.CaseEnd(id)
+	defer run.CaseEndDeferred(id)
 	r := run.Rand("retry", k)
 	kinds := []string{"error", "timeout", "decode", "tracker-error", "foreign-cancel", "foreign-cancel-wrapped"}
 	var outcomes []string
@@ -338,7 +338,7 @@ func rel(ts []time.Time, t0 time.Time) []int64 {
 func sharedScenario(k int) {
 	id := fmt.Sprintf("shared-%d", k)
 	run.CaseStart(id)
-	defer run.CaseEnd(id)
+	defer run.CaseEndDeferred(id)
 	ut, err := reftracker.NewUDP("shared", "127.0.0.1", nil)
 	if err != nil {
 		run.Inconclusive("udp listen: " + err.Error())
